@@ -190,7 +190,7 @@ func family(seed int64, tier string) []*job {
 	jobs = append(jobs, newJob(alphabet()))
 	n := 16
 	if tier == "thorough" {
-		n = 150
+		n = 450
 	}
 	for i := 0; i < n; i++ {
 		jobs = append(jobs, newJob(Generate(hx.Rng(seed, fmt.Sprintf("c12-m%d", i)), false)))
